@@ -575,6 +575,80 @@ def large_segment_repair(ctx, i):
         ctx.case((k, n, size, mss, tuple(case["deleted"]), via_verifycap, verify), kind="large-segment-repair:" + str(outcome))
 
 
+# ---- checks that also add a lease --------------------------------------------------------------------------------
+def lease_checks(ctx, i):
+    """Upload from client 0; afterwards some share-holding servers turn read-only or full; a SECOND client (no lease
+    of its own anywhere yet) and the uploading client check the file with and without add_lease, with and without
+    verify.  What a check reports must not depend on add_lease nor on whether the lease could be added."""
+    from core import grid as G
+    from allmydata import uri
+    from allmydata.monitor import Monitor
+    r = ctx.rng("lease", i)
+    k = r.choice([1, 2, 3])
+    n = r.choice([k + 1, k + 2, 5, 10])
+    size = r.choice([56, 100, 200])
+    mss = r.choice([24, 64, 128])
+    data = bytes(r.getrandbits(8) for _ in range(size))
+    nservers = r.choice([n, n, n + 1, max(2, n // 2)])
+    seed = r.getrandbits(30)
+    case = {"i": i, "lease": True, "k": k, "n": n, "size": size, "servers": nservers, "seed": seed}
+    with G.Grid(num_clients=2, num_servers=nservers, k=k, n=n, happy=1, max_segment_size=mss, seed=seed, timeout=30) as g:
+        cap = g.run(g.upload(data, convergence=b"c45l"))
+        shares = g.find_shares(cap)
+        ndel = r.choice([0, 0, 0, 1, 2])
+        for s in r.sample(shares, min(ndel, len(shares))):
+            g.delete_share(s)
+        holders = sorted(set(s.server for s in g.find_shares(cap)))
+        mode = {}
+        for srv in r.sample(holders, r.randrange(1, len(holders) + 1)) if holders else []:
+            mode[srv] = r.choice(["readonly", "full"])
+            if mode[srv] == "readonly":
+                g.set_readonly(srv, True)
+            else:
+                g.set_full(srv, True)
+        case["deleted"] = ndel
+        case["servers_closed"] = {str(a): b for a, b in sorted(mode.items())}
+        before = disk_state(g, cap)
+        present = sorted(set(sh for (_s, sh) in before))
+        reports = {}
+        order = [(c, v, a) for c in (1, 0) for v in (False, True) for a in (True, False)]
+        for (client, verify, add_lease) in order:
+            node = g.client(client).nodemaker._create_immutable(uri.from_string(cap))
+            out = g.run(lambda: node.check(Monitor(), verify=verify, add_lease=add_lease), outcome=True, timeout=20)
+            if out.status != "ok":
+                ctx.oracle_fail("check-with-add-lease-failed" if add_lease else "check-without-verify-failed",
+                                "check(verify=%s, add_lease=%s) from client %d ended with %s" % (verify, add_lease, client, out.error or out.status), case=case)
+                continue
+            per, agg = results_of(g, out.value)
+            reports[(client, verify, add_lease)] = (agg, sorted(per.items()))
+            if agg[0] != (len(present) == n) or agg[1] != (len(present) >= k) or agg[2] != len(present):
+                ctx.oracle_fail("check-health-rule:add_lease=%s" % add_lease,
+                                "%d distinct intact share numbers are stored (k=%d, N=%d; servers %s closed to new leases) but check(verify=%s, add_lease=%s) from client %d says "
+                                "healthy=%s recoverable=%s good=%d" % (len(present), k, n, sorted(mode.items()), verify, add_lease, client, agg[0], agg[1], agg[2]),
+                                case=dict(case, client=client, verify=verify, add_lease=add_lease), expected=[len(present) == n, len(present) >= k, len(present)], observed=list(agg[:3]))
+        for (client, verify, add_lease), rep in reports.items():
+            other = reports.get((client, verify, not add_lease))
+            if add_lease and other is not None and other != rep:
+                ctx.oracle_fail("check-result-depends-on-add-lease", "client %d, verify=%s: the check reports %s with add_lease and %s without" % (client, verify, list(rep[0]), list(other[0])),
+                                case=dict(case, client=client, verify=verify))
+        # check_and_repair with add_lease: no repair of a healthy file, and nothing on disk changes then
+        node = g.client(1).nodemaker._create_immutable(uri.from_string(cap))
+        out = g.run(lambda: node.check_and_repair(Monitor(), verify=r.random() < 0.5, add_lease=True), outcome=True, timeout=30)
+        outcome = out.error or out.status
+        if out.status == "ok":
+            crr = out.value
+            outcome = "healthy-no-repair" if not crr.get_repair_attempted() else ("repaired" if crr.get_repair_successful() else "repair-unsuccessful")
+            if crr.get_repair_attempted() != (len(present) < n):
+                ctx.oracle_fail("repair-attempted-on-healthy-file" if len(present) == n else "repair-not-attempted-on-unhealthy-file",
+                                "%d distinct intact share numbers stored (N=%d): check_and_repair(add_lease=True) %s" % (
+                                    len(present), n, "started a repair" if crr.get_repair_attempted() else "did not repair"), case=case)
+        after = disk_state(g, cap)
+        for key, raw in before.items():
+            if key not in after or C.split_container(after[key])[1] != C.split_container(raw)[1]:
+                ctx.oracle_fail("repair-altered-existing-good-share", "share %d on server %d changed during check_and_repair(add_lease=True)" % (key[1], key[0]), case=case)
+        ctx.case((k, n, nservers, ndel, tuple(sorted(mode.items()))), kind="add-lease:" + str(outcome))
+
+
 # ---- files whose UEB disagrees with the cap ------------------------------------------------------------------
 UEB_EDITS = [
     ("size+1", lambda d: d.update(size=d["size"] + 1), False),
@@ -674,6 +748,8 @@ def run(ctx):
         field_sweep(ctx, i, jobs)
     for i in range(ctx.n(2, 12)):
         large_segment_repair(ctx, i)
+    for i in range(ctx.n(12, 120)):
+        lease_checks(ctx, i)
     evaluate(ctx, jobs)
 
 
@@ -683,6 +759,9 @@ def replay(ctx, record):
     if "i" not in case:
         return {"note": "record names no case index"}
     jobs = []
+    if case.get("lease"):
+        lease_checks(ctx, case["i"])
+        return {"i": case["i"]}
     if case.get("bigseg"):
         large_segment_repair(ctx, case["i"])
         return {"i": case["i"]}
